@@ -171,6 +171,50 @@ func c04Units(ctx *core.Ctx) []core.Unit {
 		}
 		r.Sample(map[string]interface{}{"layout": "L0|R0|L1|R1|L2|R2|L3|R3 in one backing array", "rounds": 2})
 	}})
+	us = append(us, core.Unit{Name: "polynomials stored back to back in one buffer, opened in sequence", Run: func(ctx *core.Ctx, r *core.Result) {
+		needRef()
+		c := conf()
+		polys := polyAlphabet(ctx.Seed)
+		use := []namedPoly{polys[12], polys[13], polys[10], edgePolys()[0]}
+		buf := make([]fr.Element, 0, 256*len(use)+7)
+		var cms []banderwagon.Element
+		for _, p := range use {
+			v := frsFromBig(p.V)
+			cms = append(cms, c.Commit(v))
+			buf = append(buf, v...)
+		}
+		orig := append([]fr.Element(nil), buf...)
+		for _, z := range []*big.Int{bi(300), bi(0), bi(255), new(big.Int).Sub(bigR, bi(1))} {
+			for k, p := range use {
+				a := buf[k*256 : (k+1)*256] // capacity reaches into the next polynomial
+				in := fmt.Sprintf("polynomial %d (%s) of %d stored back to back, point %s", k, p.Name, len(use), clipHex(z))
+				var pr ipa.IPAProof
+				var err, verr error
+				var ok bool
+				y := frFromBig(ref.Inner(p.V, ref.BVec(z)))
+				if !timed(r, "c04.panic", "ipa.CreateIPAProof / CheckIPAProof", in, func() {
+					pr, err = ipa.CreateIPAProof(common.NewTranscript("ipa"), c, cms[k], a, frFromBig(z))
+					if err == nil {
+						ok, verr = ipa.CheckIPAProof(common.NewTranscript("ipa"), c, cms[k], pr, frFromBig(z), y)
+					}
+				}) {
+					return
+				}
+				r.Evals++
+				r.Nontrivial++
+				if err != nil || verr != nil || !ok {
+					vio(r, "c04.verify", "ipa.CreateIPAProof / CheckIPAProof", in, "the honest opening is accepted", fmt.Sprintf("ok=%v prover error=%v verifier error=%v", ok, err, verr))
+				}
+				for i := range orig {
+					if buf[i] != orig[i] {
+						vio(r, "c04.input_intact", "ipa.CreateIPAProof", in, "the caller's buffer is unchanged (also beyond the end of the slice that was passed)", fmt.Sprintf("element %d of the buffer (polynomial %d, index %d) changed", i, i/256, i%256))
+						copy(buf, orig)
+						break
+					}
+				}
+			}
+		}
+	}})
 	us = append(us, core.Unit{Name: "honest openings prove and verify after calls that ended with an error", Run: func(ctx *core.Ctx, r *core.Result) {
 		needRef()
 		c := conf()
